@@ -30,7 +30,7 @@ type c02case struct {
 
 func c02universe(r *rand.Rand) []string {
 	// incl. one-character segments (prefix arithmetic at index 0/1) and long ones: names and wildcard prefixes reach the 36-byte limit
-	segs := []string{"ab", "cd", "svc", "x1", "req", "in", "a", "q", "7", "longsegment0", "eightchr", "x234567890"}
+	segs := []string{"ab", "cd", "svc", "x1", "req", "in", "a", "q", "7", "longsegment0", "eightchr", "x234567890", "app", "rpc"}
 	set := map[string]bool{}
 	for len(set) < 80 {
 		k := 1 + r.IntN(4)
@@ -245,7 +245,101 @@ func (c *c02case) owner(tag string) string {
 	return "console"
 }
 
+// c02register registers a tag; names of the form _app_… / _rpc_… go through the helper API with the rest split into
+// (subType, action) at a random underscore, so that helper parts consisting of several words occur. The name - and with it
+// the routing - is the same whichever way it was registered.
+func c02register(r *rand.Rand, t string) *log.Tag {
+	for _, main := range []string{"app", "rpc"} {
+		rest, ok := strings.CutPrefix(t, "_"+main+"_")
+		if !ok || rest == "" || r.IntN(4) == 0 {
+			continue
+		}
+		sub, act := rest, ""
+		var cuts []int
+		for i := 1; i < len(rest)-1; i++ {
+			if rest[i] == '_' {
+				cuts = append(cuts, i)
+			}
+		}
+		if len(cuts) > 0 && r.IntN(3) > 0 {
+			c := cuts[r.IntN(len(cuts))]
+			sub, act = rest[:c], rest[c+1:]
+		}
+		var tg *log.Tag
+		if main == "app" {
+			tg = log.RegisterAppTag(sub, act)
+		} else {
+			tg = log.RegisterRPCTag(sub, act)
+		}
+		if tg != log.RegisterTag(t) {
+			panic("harness: helper and RegisterTag disagree on " + t)
+		}
+		return tg
+	}
+	return log.RegisterTag(t)
+}
+
+// c02ManyTags: an application with more than 2^16 registered tags (legal while nothing is live). Three wildcard loggers
+// by name class plus a configured root; every tag logs once and must arrive at the logger of its class, exactly once.
+func c02ManyTags(w *W) {
+	registerMonitorPlugins()
+	sink := &chunkSink{}
+	log.Stdout = sink
+	n := int(w.Spec.N)
+	tags := make([]*log.Tag, n)
+	for i := 0; i < n; i++ {
+		tags[i] = log.RegisterTag(fmt.Sprintf("%s_t%d", []string{"ka", "kb", "kc", "zz"}[i%4], i))
+	}
+	cfg := map[string]string{}
+	for _, c := range []string{"ka", "kb", "kc"} {
+		cfg["appender.s"+c+".type"] = "VRec"
+		cfg["logger.l"+c+".type"], cfg["logger.l"+c+".tags"], cfg["logger.l"+c+".appenderRef.ref"] = "Logger", c+"_*", "s"+c
+	}
+	cfg["appender.sroot.type"], cfg["logger.root.type"], cfg["logger.root.appenderRef.ref"] = "VRec", "Logger", "sroot"
+	cs := map[string]any{"scenario": "many registered tags", "tags": n}
+	if err := log.Refresh(cfg); err != nil {
+		w.Violate("C02:valid-config-rejected", "Refresh with "+fmt.Sprint(n)+" registered tags failed: "+trunc(err.Error(), 300), cs)
+		log.Destroy()
+		return
+	}
+	ctx := context.Background()
+	for i, t := range tags {
+		log.Info(ctx, t, log.Msg(fmt.Sprintf("id-mt%d-%d", w.Spec.Shard, i)))
+	}
+	log.Destroy()
+	seen := make([]int8, n)
+	bad := 0
+	for _, it := range rec.take() {
+		var i int
+		if _, err := fmt.Sscanf(idOf(it.JSON), fmt.Sprintf("id-mt%d-%%d", w.Spec.Shard), &i); err != nil || i < 0 || i >= n {
+			continue
+		}
+		want := []string{"ska", "skb", "skc", "sroot"}[i%4]
+		seen[i]++
+		if it.Sink != want && bad < 3 {
+			bad++
+			w.Violate("C02:misrouted", fmt.Sprintf("with %d registered tags, tag #%d (%s_t%d) was served by %s, expected %s", n, i, []string{"ka", "kb", "kc", "zz"}[i%4], i, it.Sink, want), cs)
+		}
+	}
+	for i, k := range seen {
+		if k != 1 && bad < 3 {
+			bad++
+			w.Violate("C02:lost", fmt.Sprintf("with %d registered tags, the event of tag #%d arrived %d times", n, i, k), cs)
+		}
+	}
+	w.Eval(1)
+	w.Count("tag_routings_checked", int64(n))
+	if bad == 0 {
+		w.Distinct(fmt.Sprintf("manytags|%d", n))
+		w.Sample(cs)
+	}
+}
+
 func c02Worker(w *W) {
+	if w.Spec.Kind == "manytags" {
+		c02ManyTags(w)
+		return
+	}
 	registerMonitorPlugins()
 	sink := &chunkSink{}
 	log.Stdout = sink
@@ -263,7 +357,7 @@ func c02Worker(w *W) {
 	var all []string
 	for _, t := range universe {
 		if !isLate[t] {
-			tags[t] = log.RegisterTag(t)
+			tags[t] = c02register(ur, t)
 			all = append(all, t)
 		}
 	}
@@ -298,7 +392,7 @@ func c02Worker(w *W) {
 		if ci%5 == 2 && len(late) > 0 {
 			t := late[0]
 			late = late[1:]
-			if pv, _ := catch(func() { tags[t] = log.RegisterTag(t) }); pv != nil {
+			if pv, _ := catch(func() { tags[t] = c02register(ur, t) }); pv != nil {
 				w.Violate("C02:late-registration-refused", fmt.Sprintf("RegisterTag(%q) after a Destroy panicked: %v", t, pv), map[string]any{"index": ci})
 			} else {
 				all = append(all, t)
@@ -437,9 +531,9 @@ func c02Worker(w *W) {
 func init() {
 	register(&Prop{
 		ID: "C02", Level: "exploration", MinDistinct: 30, Worker: c02Worker,
-		Rule: "each worker registers a seeded universe of 80 valid tags (1-4 segments over a 12-segment pool incl. one-character segments and 8-12 character ones (names and wildcard prefixes up to the 36-byte limit), with/without leading underscore, heavy prefix sharing) + the 2 built-in ones; cases: 1-4 sync loggers + optional root, each with a private recording appender; tag lists mix registered literals, unregistered literals, wildcards P_* for every proper prefix P in the universe and for whole registered tags, " +
+		Rule: "each worker registers a seeded universe of 80 valid tags (names beginning with _app_/_rpc_ through the helper API with multi-word parts; 1-4 segments over a 12-segment pool incl. one-character segments and 8-12 character ones (names and wildcard prefixes up to the 36-byte limit), with/without leading underscore, heavy prefix sharing) + the 2 built-in ones; cases: 1-4 sync loggers + optional root, each with a private recording appender; tag lists mix registered literals, unregistered literals, wildcards P_* for every proper prefix P in the universe and for whole registered tags, " +
 			"blanks/empty entries/repeated entries, random key spelling; 1/3 of the cases carry one of the four stated errors (duplicate tag string across loggers, root with tags, logger without tags in 6 spellings, malformed wildcard in 8 shapes). Each map is Refreshed 3x (Destroy between; Go randomises map iteration each time) and one event per registered tag is routed. " +
-			"Oracle: literal owner, else longest proper underscore-delimited prefix wildcard, else root/console; exactly one sink per event. Non-trivial/distinct = distinct (error class | #loggers, #wildcards, nested wildcards present, root configured) classes among cases that matched.",
+			"Oracle: literal owner, else longest proper underscore-delimited prefix wildcard, else root/console; exactly one sink per event. One further worker registers 70000 (thorough 300000) tags in four name classes and routes one event per tag. Non-trivial/distinct = distinct (error class | #loggers, #wildcards, nested wildcards present, root configured) classes among cases that matched.",
 		Assumptions: []string{"the bare wildcard '_*' (empty prefix) and wildcards with a second '*' that still end in '_*' are not generated"},
 		Run: func(d *D) {
 			var specs []Spec
@@ -454,6 +548,9 @@ func init() {
 				s.Flavour = "race"
 				specs = append(specs, s)
 			}
+			mt := d.NewSpec("manytags", "manytags", 300, 16)
+			mt.N = d.Pick(70000, 300000)
+			specs = append(specs, mt)
 			outs := d.RunWorkers(specs, 16)
 			d.raceVerdict(outs)
 		},
